@@ -12,7 +12,8 @@ RULES = {
            "to_ne_bytes(*self) (to_le/be_bytes, swap_bytes, rev, arithmetic, casts: violation); Vec<u8>/String from clone / as_ref / "
            "as_bytes / to_vec of self; Vec<u16>/Vec<u32> from per-element to_ne_bytes in iteration order. Fixed-width concatenation in "
            "order is injective, so equal values <=> equal bytes",
-    "SHASEED": "in the Sha variant the bytes fed to Sha512_256 are exactly key.get_sig() and the digest seeds the generator",
+    "SHASEED": "in the Sha variant the bytes fed to Sha512_256 are exactly key.get_sig() and the digest seeds the generator: every "
+               "definition of the buffer given to from_seed is unconditional and taken from the finalize()/digest() result",
 }
 
 INT_OK = {"to_ne_bytes", "from", "into", "to_vec", "into_vec", "box_assume_init_into_vec_unsafe", "write_box_via_move", "new_uninit", "new"}
@@ -124,6 +125,55 @@ def unsafe_rule(ctx, facts):
                 ctx.ok("UNSAFE", u["fn"], "from_raw_parts with ownership given up by %s and same layout" % hirq.show(gives_up[0])[:40], hirq.loc(c))
 
 
+def _digest_to_seed(ctx, rule, fid, fn, t, R_):
+    """the 32 bytes given to from_seed are the digest on every path: every definition of the seed buffer (its initialiser unless
+    a constant array, copy_from_slice / clone_from_slice into it, assignments to it) takes its value from the finalize()/digest()
+    result and is under no condition — a shortcut that copies the raw identity for some keys seeds the generator with unmixed bytes"""
+    sites = [x for x in user_nodes(fn) if x["k"] == "Call" and short(x.get("callee", "") or "") == "from_seed" and x["args"]]
+    if len(sites) != 1:
+        ctx.violation(rule, fid, "seeding call", hirq.loc(fn), "expected one from_seed call per item, found %d" % len(sites))
+        return
+    site = sites[0]
+    arg = nf.strip_casts(site["args"][0])
+    loops = [f for f in __import__("pmh.rulelib", fromlist=["for_loops"]).for_loops(fn) if t.contains(f["body"], site)]
+    stop = loops[-1]["loop"] if loops else None
+
+    def from_digest(e):
+        s_ = nf.nf(e, True, res=R_)
+        return ".finalize" in s_ or "::digest(" in s_ or ".finalize_reset" in s_
+    defs = []      # (node, source expr)
+    if arg["k"] == "Path" and "local" in arg["res"]:
+        lid = arg["res"]["local"]
+        for x in user_nodes(fn):
+            if x["k"] == "Let" and x["pat"].get("k") == "Bind" and x["pat"]["id"] == lid and "init" in x:
+                i_ = nf.strip_casts(x["init"])
+                if i_["k"] in ("Repeat", "Array") or (i_["k"] == "Call" and short(i_.get("callee", "")) in ("default", "zeroed")):
+                    continue      # a constant buffer to be filled
+                defs.append((x, x["init"]))
+            elif x["k"] == "MethodCall" and x["args"] and nf._place(x["recv"]) == ("local", lid) \
+                    and x["name"] in ("copy_from_slice", "clone_from_slice", "fill", "swap_with_slice", "copy_within", "fill_with"):
+                defs.append((x, x["args"][0]))
+            elif x["k"] in ("Assign", "AssignOp") and nf._place(x["l"]) == ("local", lid):
+                defs.append((x, x["r"]))
+    else:
+        defs.append((site, arg))
+    if not defs:
+        ctx.violation(rule, fid, "seed bytes", hirq.loc(site), "no definition of the seed buffer `%s` found" % nf.nf(arg)[:40])
+        return
+    bad = []
+    for (d, src) in defs:
+        conds = [c for c in nf.all_conditions(t, d, stop=stop)]
+        if not from_digest(src):
+            bad.append("`%s` does not come from the digest" % nf.nf(d, True)[:70])
+        elif conds:
+            bad.append("`%s` is conditional on %s" % (nf.nf(d, True)[:50], conds[:1]))
+    if bad:
+        ctx.violation(rule, fid, "seed bypasses the digest", hirq.loc(defs[0][0]),
+                      "the bytes given to from_seed are not the Sha512_256 digest on every path: %s — keys taking the other path seed the generator with their raw bytes" % "; ".join(bad)[:300])
+    else:
+        ctx.ok(rule, fid, "from_seed(%s): %d definition(s), all unconditional and taken from the digest" % (nf.nf(arg)[:20], len(defs)), hirq.loc(site))
+
+
 def sha_rule(ctx, facts, rule="SHASEED"):
     """the digest that seeds an item's generator is computed from that item's byte identity alone: one update fed with
     key.get_sig(), on a hasher that is fresh for the item (created in the per-item loop body before the update, or reset by
@@ -142,6 +192,7 @@ def sha_rule(ctx, facts, rule="SHASEED"):
                  and "Digest" in (x.get("callee", "") or hirq.show(x["f"]))]
         if not ups and len(shots) == 1 and nf.nf(shots[0]["args"][0], res=R_) == "key.get_sig()" and [f for f in for_loops(fn) if t.contains(f["body"], shots[0])]:
             ctx.ok(rule, fid, "one-shot Sha512_256::digest(&key.get_sig()) per item: a hasher of its own for every key", hirq.loc(shots[0]))
+            _digest_to_seed(ctx, rule, fid, fn, t, R_)
             continue
         if len(ups) != 1 or nf.nf(ups[0]["args"][0], res=R_) not in ("key.get_sig()",):
             ctx.violation(rule, fid, "digest input", hirq.loc(fn), "expected exactly one Sha512_256 update fed with key.get_sig(); found %s" % [nf.nf(u["args"][0])[:40] for u in ups])
@@ -169,6 +220,8 @@ def sha_rule(ctx, facts, rule="SHASEED"):
                     for x in hirq.walk(s_):
                         if x["k"] in ("Continue", "Break", "Ret") and not hirq.from_expansion(x) and x["sp"][1] >= up["sp"][1] and x["sp"][1] <= fins[0]["sp"][1]:
                             between.append(x)
+        if (fresh or fins[0]["name"] == "finalize_reset") and path_ok and not between:
+            _digest_to_seed(ctx, rule, fid, fn, t, R_)
         if fresh and path_ok and not between:
             ctx.ok(rule, fid, "fresh Sha512_256 per item: new -> update(&key.get_sig()) -> finalize in one iteration", hirq.loc(up))
         elif not fresh and fins[0]["name"] == "finalize_reset" and path_ok and not between:
